@@ -54,9 +54,14 @@ class Location(object):
             same_id = True
         else:
             same_id = self.id == other.id
-        same_lat = verif.util.almost_equal(self.lat, other.lat, 1e-5)
-        same_lon = verif.util.almost_equal(self.lon, other.lon, 1e-5)
-        same_elev = verif.util.almost_equal(self.elev, other.elev, 1e-5)
+        # A missing coordinate (nan) only matches a missing coordinate, as for the id
+        def same(value1, value2):
+            if np.isnan(value1) and np.isnan(value2):
+                return True
+            return verif.util.almost_equal(value1, value2, 1e-5)
+        same_lat = same(self.lat, other.lat)
+        same_lon = same(self.lon, other.lon)
+        same_elev = same(self.elev, other.elev)
         return same_id and same_lat and same_lon and same_elev
 
     def __ne__(self, other):
